@@ -22,9 +22,11 @@ def run(run, model):
     from . import fwd
     run.do(fwd.forwarding, model, "C06.configured-repr", ("a_repr",))
     run.do(rec.simple_nodes, model)
+    run.do(rec.all_trace, model, "C06.all-trace")
     run.minimum("C06.optable", 27)
     run.minimum("C06.chain", 1)
     run.minimum("C06.node-value", 20)
     run.minimum("C06.repr-coupling", 9)
     run.minimum("C06.lookup", 4)
     run.minimum("C06.call-args", 1)
+    run.minimum("C06.all-trace", 2)
